@@ -51,6 +51,13 @@ theorem pyFormat_width_le (g : GSpec) (v : Val) (r : List Char) (h : pyFormat g 
         · cases h
         · cases h; rw [length_padNum]; omega
       · split at h <;> cases h
+    | nan =>
+      simp only [] at h
+      split at h
+      · split at h
+        · cases h
+        · cases h; rw [length_padNum]; omega
+      · split at h <;> cases h
 
 /-! ### the groups of a parsed spec -/
 
@@ -111,6 +118,7 @@ def kindMatches (sp : Spec) (v : Val) : Bool :=
   | .s, .str _ => true
   | .f, .fix _ => true
   | .f, .int _ => true
+  | .f, .nan => true
   | _, _ => false
 
 theorem toSpec_facts (g : GSpec) (t : Bool) (sp : Spec) (h : g.toSpec? t = some sp) :
